@@ -24,7 +24,7 @@ Hypotheses that stay NAMED (they are facts about the element `a`, established by
 * (H-cyc)   `Fq12.square_cyclotomic_oa (a ^ n) = a ^ n * a ^ n` for all `n` (Granger–Scott squaring is squaring on
   the powers of `a`; `Proofs/Cyclotomic.lean` proves it from the coordinate predicate `IsCyclotomic a`, which is closed
   under powers).  Theorem 1 needs it only in the weaker "any multiplicatively closed set `P`" form.
-Not covered: `exponentiate_gt_nodiv` (no Impl model; compared with `a^k` by the judge only), and the probabilistic
+`exponentiate_gt_nodiv` is covered in `Properties/C07c.lean`.  Not covered: the probabilistic
 reading of "uniformly chosen" beyond the bijection `xrand_digits_unique` / `xrand_digits_exist`.
 -/
 import JediVerif.Proofs.GtExp
